@@ -177,7 +177,9 @@ def back_dimless(v) -> list[int]:
 
 
 def _region_in(r) -> str:
-    return GROUND if r == "_" else str(r)
+    if not isinstance(r, str):
+        raise ValueError(f"region {r!r} is not a string")
+    return GROUND if r == "_" else r
 
 
 def _exact_rect(emb, cx, cy, w, h) -> list:
@@ -243,6 +245,8 @@ def parse_tree(tree, emb) -> dict:
     for key, val in tree.items():
         if key == "Modules":
             for name, info in (val or {}).items():
+                if not isinstance(name, str):
+                    raise ValueError(f"module key {name!r} is not a string")
                 md = {"name": name, "area": {"form": "none", "ent": []}, "center": [], "aspect": {"form": "none", "v": []},
                       "flags": {k: -1 for k in FLAG_KEYS}, "rects": {"form": "none", "rs": []}, "extra": []}
                 for k, v in (info or {}).items():
@@ -276,9 +280,12 @@ def parse_tree(tree, emb) -> dict:
         elif key == "Nets":
             for e in (val or []):
                 if e and _is_num(e[-1]):
-                    doc["nets"].append({"pins": [str(p) for p in e[:-1]], "w": back_dimless(e[-1])})
+                    pins, w = e[:-1], back_dimless(e[-1])
                 else:
-                    doc["nets"].append({"pins": [str(p) for p in e], "w": []})
+                    pins, w = e, []
+                if not all(isinstance(q, str) for q in pins):
+                    raise ValueError("a pin is not a string")
+                doc["nets"].append({"pins": list(pins), "w": w})
         else:
             doc["extra"].append(str(key))
     return doc
